@@ -37,14 +37,16 @@ EXCLUDED = {"scf(60F)", "mol(lbm)", "mol(kg)", "mol(g)",
             "kByte", "MByte", "GByte", "TByte", "kbyte", "Mbyte", "Gbyte", "Tbyte"}
 # component tokens whose symbol is ambiguous inside compounds ('F' is farad as a row but degree Fahrenheit in 'Btu/lbmol.F')
 AMBIGUOUS_COMPONENTS = {"F"}
+# registered symbols that look like a power of another registered symbol but are not ('Mm3' is the oilfield "thousand m3", not megametre cubed)
+NOT_A_POWER = {"Mm3"}
 
 
 def _factor(tok, U):
+    m = re.match(r"^(.*?)(\d+)$", tok)
+    if m and m.group(1) in U and tok not in NOT_A_POWER:
+        return [(m.group(1), int(m.group(2)))]  # a power of a registered symbol is read as a power even when 'cm2' is a row itself
     if tok in U:
         return [(tok, 1)]
-    m = re.match(r"^(.*?)(\d+)$", tok)
-    if m and m.group(1) in U:
-        return [(m.group(1), int(m.group(2)))]
     return None
 
 
@@ -144,17 +146,20 @@ def run(cfg, V):
     if cfg["k"] == "compound" and cfg.get("ops"):
         comps = cfg["comps"]
         # the same amount built by the REAL operators from Scalars in the component units
-        acc = None
-        first = True
-        for c, e in sorted(comps, key=lambda ce: -ce[1]):  # numerator factors first
-            for _ in range(abs(e)):
-                amount = x if (first and e > 0) else 1.0
-                s = Scalar(amount, c, U[c].quantity_type if U[c].quantity_type in db.categories_to_quantity_types else None)
-                if acc is None:
-                    acc = s if e > 0 else x / s  # a pure reciprocal: x [1/c] = x / (1 c)
-                else:
-                    acc = acc * s if e > 0 else acc / s
-                first = False
+        def mk(amount, c):
+            return Scalar(amount, c, U[c].quantity_type if U[c].quantity_type in db.categories_to_quantity_types else None)
+
+        # numerator and denominator are each built as a product of powers, then divided: (a * b**2) / (c**2 * d)
+        num, den = None, None
+        for c, e in comps:
+            f = mk(1.0, c) ** abs(e) if abs(e) > 1 else mk(1.0, c)
+            if e > 0:
+                num = f if num is None else num * f
+            else:
+                den = f if den is None else den * f
+        acc = (num * x if num is not None else x)
+        if den is not None:
+            acc = acc / den
         o["built"] = (acc.GetValue(), qmap(acc))
     return o
 
